@@ -95,6 +95,8 @@ def run_check(prop, tier, seed, replay=None):
     mirror, spec = lib.run_model(model_exe, cases)
     mirror = [prop.canon_model(x) for x in mirror]
     spec = [prop.canon_model(x) for x in spec]
+    if hasattr(prop, 'post_model'):
+        mirror = prop.post_model(mirror, exes)
 
     corr_breaks = []   # (case, impl, mirror, spec, profile)
     prop_fails = []
